@@ -36,8 +36,10 @@ Segments = list[Union[str, int, "Path"]]
 Location = tuple[Union[str, int, "Location"], ...]
 
 
-# This is use for pretty printing paths with shorthand notation where possible.
-RE_PROPERTY = re.compile(r"[\u0080-\uFFFFa-zA-Z_][\u0080-\uFFFFa-zA-Z0-9_-]*")
+# This is use for pretty printing paths with shorthand notation where possible. It
+# matches exactly the segments that the expression lexer scans as a single word:
+# the lexer's identifier pattern, except digits that would be scanned as an integer.
+RE_PROPERTY = re.compile(r"(?!\d+(?!\w))\w[\w\-]*\??")
 
 
 class Path(Expression):
